@@ -24,6 +24,7 @@ const (
 	famGas
 	famGrace
 	famMin
+	famKey // the relay's public key: set on a base relay and on a proposer's relay entry only
 )
 
 type c10Vals struct {
@@ -32,6 +33,7 @@ type c10Vals struct {
 	gas     uint64
 	grace   time.Duration
 	min     uint64
+	key     phase0.BLSPubKey
 }
 
 func ndVals(name string, fam int) c10Vals {
@@ -49,8 +51,18 @@ func ndVals(name string, fam int) c10Vals {
 	case famMin:
 		v.min = vnd.SmallU64(name+".min", 40)
 		vnd.Assume(v.min > 0)
+	case famKey:
+		v.key = phase0.BLSPubKey{0x80, vnd.U8(name + ".key")}
 	}
 	return v
+}
+
+func (v c10Vals) keyP(fam int) *phase0.BLSPubKey {
+	if fam == famKey && v.present {
+		k := v.key
+		return &k
+	}
+	return nil
 }
 
 func (v c10Vals) feeP(fam int) *bellatrix.ExecutionAddress {
@@ -97,7 +109,7 @@ func pick(levels ...c10Vals) (c10Vals, bool) {
 // value, else top-level value, else fallback; relay set = base set (or none if
 // reset) minus disabled plus new; only the first matching proposer entry applies.
 func VerifC10_V2Precedence() {
-	fam := vnd.Choose("family", 4)
+	fam := vnd.Choose("family", 5)
 	top := ndVals("top", fam)
 	base := ndVals("base", fam)
 	prop := ndVals("proposer", fam)
@@ -106,7 +118,7 @@ func VerifC10_V2Precedence() {
 	const fallbackGas = uint64(30000000)
 
 	cfg := &ExecutionConfig{Version: 2, FeeRecipient: top.feeP(fam), GasLimit: top.gasP(fam), Grace: top.graceP(fam), MinValue: top.minP(fam),
-		Relays: map[string]*BaseRelayConfig{"https://base.example": {FeeRecipient: base.feeP(fam), GasLimit: base.gasP(fam), Grace: base.graceP(fam), MinValue: base.minP(fam)}}}
+		Relays: map[string]*BaseRelayConfig{"https://base.example": {FeeRecipient: base.feeP(fam), GasLimit: base.gasP(fam), Grace: base.graceP(fam), MinValue: base.minP(fam), PublicKey: base.keyP(fam)}}}
 	pubkey := phase0.BLSPubKey{7}
 	matches := vnd.Bool("first-entry-matches")
 	reset := vnd.Bool("reset-relays")
@@ -122,7 +134,7 @@ func VerifC10_V2Precedence() {
 		if overrideKind == 2 {
 			addr = "https://new.example"
 		}
-		first.Relays = map[string]*ProposerRelayConfig{addr: {Disabled: disabled, FeeRecipient: over.feeP(fam), GasLimit: over.gasP(fam), Grace: over.graceP(fam), MinValue: over.minP(fam)}}
+		first.Relays = map[string]*ProposerRelayConfig{addr: {Disabled: disabled, FeeRecipient: over.feeP(fam), GasLimit: over.gasP(fam), Grace: over.graceP(fam), MinValue: over.minP(fam), PublicKey: over.keyP(fam)}}
 		if !disabled && vnd.Bool("override.written-as-null") {
 			// "relays":{"<addr>":null}: an entry without values of its own, the same as {}
 			first.Relays[addr] = nil
@@ -146,6 +158,8 @@ func VerifC10_V2Precedence() {
 		fee      bellatrix.ExecutionAddress
 		gas, min uint64
 		grace    time.Duration
+		key      phase0.BLSPubKey
+		hasKey   bool
 	}
 	var earlier *beaconblockproposer.ProposerConfig
 	var earlierSnap []relaySnap
@@ -153,7 +167,11 @@ func VerifC10_V2Precedence() {
 		earlier, _ = cfg.ProposerConfig(context.Background(), nil, phase0.BLSPubKey{9}, fallbackFee, fallbackGas)
 		if earlier != nil {
 			for _, r := range earlier.Relays {
-				earlierSnap = append(earlierSnap, relaySnap{r.Address, r.FeeRecipient, r.GasLimit, r.MinValue.BigInt().Uint64(), r.Grace})
+				sn := relaySnap{addr: r.Address, fee: r.FeeRecipient, gas: r.GasLimit, min: r.MinValue.BigInt().Uint64(), grace: r.Grace}
+				if r.PublicKey != nil {
+					sn.key, sn.hasKey = *r.PublicKey, true
+				}
+				earlierSnap = append(earlierSnap, sn)
 			}
 		}
 	}
@@ -166,8 +184,15 @@ func VerifC10_V2Precedence() {
 			if i < len(earlierSnap) {
 				w := earlierSnap[i]
 				vnd.Assert(r.Address == w.addr && r.FeeRecipient == w.fee && r.GasLimit == w.gas && r.Grace == w.grace && r.MinValue.BigInt().Uint64() == w.min, "C10.v2.settings-handed-out-earlier-are-unchanged")
+				vnd.Assert((r.PublicKey != nil) == w.hasKey && (r.PublicKey == nil || *r.PublicKey == w.key), "C10.v2.settings-handed-out-earlier-are-unchanged")
 			}
 		}
+	}
+
+	// lookups only read the configuration: the base relay still has the key it was configured with
+	if fam == famKey {
+		b := cfg.Relays["https://base.example"]
+		vnd.Assert(b != nil && (b.PublicKey != nil) == base.present && (b.PublicKey == nil || *b.PublicKey == base.key), "C10.v2.lookups-leave-the-configuration-as-it-was")
 	}
 
 	none := c10Vals{}
@@ -248,6 +273,16 @@ func VerifC10_V2Precedence() {
 				wantMin = l.min
 			}
 			vnd.Assert(r.MinValue.BigInt().Uint64() == wantMin && r.MinValue.BigInt().IsUint64(), "C10.v2.relay-min-value-precedence")
+		case famKey:
+			// only the relay-level entries carry a key: the proposer's relay entry over the base relay's
+			kl, kok := pick(w.levels[0], base)
+			if w.addr != "https://base.example" || (matches && reset) {
+				kl, kok = pick(w.levels[0]) // a new relay, or the inherited one discarded and named afresh
+			}
+			vnd.Assert((r.PublicKey != nil) == kok, "C10.v2.relay-public-key-precedence")
+			if r.PublicKey != nil && kok {
+				vnd.Assert(*r.PublicKey == kl.key, "C10.v2.relay-public-key-precedence")
+			}
 		}
 		vnd.Cover("C10.v2.relay-checked")
 	}
